@@ -754,6 +754,201 @@ def run_c15(ctx, plan):
                 ctx.known_history_fails.add(f["id"])
 
 
+# ---------------------------------------------------------------------------
+# the concurrent cache under several threads (modes S and F)
+
+CONC_PROGS = {"ii": 2, "ii2": 2, "ixi": 2, "upd": 2, "rej": 2, "syncs": 2, "ia": 2, "wgt": 2, "xget": 2,
+              "ttl": 2, "tti": 2, "three": 3, "three2": 3, "burst": 2}
+CONC_QUICK = ["ii", "upd", "rej", "ixi", "wgt", "xget", "burst"]
+CONC_LIGHT = ["ii", "upd", "wgt"]
+
+
+def conc_constants(prog, emit, real, dev):
+    k = {"NKeys": 2, "MaxInfo": 8, "MaxRepeats": 4, "Dev": set(dev), "Threads": CONC_PROGS[prog], "Prog": prog,
+         "Emit": emit}
+    if real:
+        k.update({"RLog": 384, "WLog": 384, "Flush": 64, "SBatch": 500, "Period": 1280})
+    else:
+        k.update({"RLog": 3, "WLog": 2, "Flush": 2, "SBatch": 6, "Period": 6})
+    return k
+
+
+def conc_trace_check(ctx, name, trace, props, threads=3):
+    consts = {"NKeys": 2, "MaxInfo": 8, "RLog": 384, "WLog": 384, "Flush": 64, "MaxRepeats": 4, "SBatch": 500,
+              "Period": 1280, "Dev": set(), "Threads": threads, "CheckProps": set(props)}
+    return generic_trace_check(ctx, "TraceConc.tla", name, trace, consts)
+
+
+def conc_verdict(ctx, name, trace, beh, viol):
+    lines = None
+    seen = set()
+    behs = None
+    for (p, bid, line) in viol:
+        if p != ctx.prop or bid in seen:
+            continue
+        seen.add(bid)
+        if len(ctx.violations) >= 8:
+            continue
+        if lines is None:
+            lines = V.read_lines(trace)
+            behs = {b.get("id", i): b for i, b in enumerate(V.read_lines(beh))} if beh else {}
+        evs, idx = V.behaviour_events(lines, line)
+        b = behs.get(bid, {})
+        path = V.write_replay(p, b.get("cfg", evs[0]), {"progs": b.get("progs"), "sched": b.get("sched"),
+                                                        "seed": b.get("seed")},
+                              evs, idx, "concurrent:" + name,
+                              extra={"kind": "schedule", "events": [V.slim_event(e) for e in evs[:idx + 1]][-40:]})
+        ctx.violation(path, "event %d (%s) of run %d rejected by monitor %s" % (idx, evs[idx].get("ev"), bid, p))
+    return seen
+
+
+def stage_conc_mc(ctx, progs):
+    for prog in progs:
+        name = "cmc_" + prog
+        r = V.model_check(ctx.wd, name, "MC_Conc.tla", conc_constants(prog, False, False, ()),
+                          ["Ok", "NoCrash", "NoDeadlock"], spec="FairSpec", properties=["Terminates"],
+                          workers=10, timeout=1800)
+        ctx.mc.append({k: r[k] for k in ("name", "distinct", "generated", "ok", "wall_s", "timeout")})
+        ctx.states += r["distinct"]
+        ctx.transitions += r["generated"]
+        if r["timeout"]:
+            ctx.notes.append("%s hit its time limit (not exhaustive)" % name)
+        elif not r["ok"]:
+            ctx.model_failures.append((name, r["violated"] or r["error"], r["out"]))
+
+
+def stage_conc_s(ctx, progs, max_per_prog, random_runs):
+    """TLC's interleavings forced on real threads; then seeded random schedules."""
+    import random
+    rnd = random.Random(ctx.seed)
+    for prog in progs:
+        name = "cs_" + prog
+        cfg = os.path.join(ctx.wd, name + ".cfg")
+        V.write_cfg(cfg, constants=conc_constants(prog, True, True, V.SDEV), view="View")
+        rc, outp, wall = V.run_tlc(ctx.wd, "MC_Conc.tla", cfg, workers=1, timeout=1800, out=name + ".out")
+        r = V.parse_mc(outp)
+        if not r["ok"]:
+            raise ToolError("schedule emission %s failed: %s" % (name, r["violated"] or r["error"]))
+        beh_all = os.path.join(ctx.wd, name + ".all.ndjson")
+        n_all = parse_edges(outp, beh_all)
+        os.remove(outp)
+        beh = os.path.join(ctx.wd, name + ".beh.ndjson")
+        with open(beh_all) as f:
+            lines = f.readlines()
+        if max_per_prog and len(lines) > max_per_prog:
+            # longest schedules first (they determine most of the run), then a seeded sample
+            lines.sort(key=lambda l: -len(l))
+            keep = lines[:max_per_prog // 2] + rnd.sample(lines[max_per_prog // 2:], max_per_prog - max_per_prog // 2)
+        else:
+            keep = lines
+        with open(beh, "w") as f:
+            f.writelines(keep)
+        os.remove(beh_all)
+        run_sched(ctx, name, beh, len(keep), "every edge of %d states (%d schedules)" % (r["distinct"], n_all))
+        ctx.states += r["distinct"]
+        ctx.transitions += r["generated"]
+    if random_runs:
+        # the same programs under seeded random schedules (no expectation from the model: monitors only)
+        name = "cs_random"
+        beh = os.path.join(ctx.wd, name + ".beh.ndjson")
+        src = os.path.join(ctx.wd, "cs_%s.beh.ndjson" % progs[0])
+        protos = []
+        for prog in progs:
+            with open(os.path.join(ctx.wd, "cs_%s.beh.ndjson" % prog)) as f:
+                protos.append(json.loads(f.readline()))
+        with open(beh, "w") as f:
+            for i in range(random_runs):
+                b = dict(protos[i % len(protos)])
+                b.pop("last", None)
+                b["sched"] = []
+                b["seed"] = ctx.seed * 100000 + i
+                b["id"] = i
+                f.write(json.dumps(b) + "\n")
+        run_sched(ctx, name, beh, random_runs, "seeded random schedules")
+
+
+def run_sched(ctx, name, beh, n, what):
+    trace = os.path.join(ctx.wd, name + ".trace.ndjson")
+    if os.path.exists(trace):
+        os.remove(trace)
+    hr = V.harness(["sched", beh, trace], timeout=1800)
+    if hr.returncode not in (0, 3):
+        with open(trace, "a") as f:
+            f.write(json.dumps({"ev": "Crash", "rc": hr.returncode}) + "\n")
+        summ = {"events": 0, "steps": 0, "mismatches": [], "abandoned": 0, "hangs": 0, "crash": hr.returncode}
+    else:
+        summ = json.loads(hr.stdout.strip().splitlines()[-1])
+    log("[sched] %-22s %6d runs on real threads, %s: %d steps, expectation mismatches=%d abandoned=%d hangs=%d" % (
+        name, n, what, summ["steps"], len(summ["mismatches"]), summ["abandoned"], summ["hangs"]))
+    for mm in summ["mismatches"][:10]:
+        ctx.drift.append({"source": name, "behaviour": mm.get("id"), "what": mm.get("what")})
+    props = [ctx.prop]
+    st, viol, drift = conc_trace_check(ctx, name, trace, props)
+    ctx.replayed += n
+    ctx.events += st["events"]
+    ctx.nontrivial += st["nt"].get(ctx.prop, 0)
+    bad = conc_verdict(ctx, name, trace, beh, viol)
+    ctx.traces_ok += st["behaviours"] - len(bad)
+    if len(ctx.samples) < 4:
+        b = json.loads(open(beh).readline())
+        ctx.samples.append({"kind": "program and schedule executed on real threads (%s)" % name,
+                            "cfg": b["cfg"], "progs": b["progs"], "sched": b.get("sched")})
+    os.remove(trace)
+
+
+def stage_conc_f(ctx, runs, threads, ops):
+    """Free-running threads: stamped invoke / return logs validated by the same monitors."""
+    name = "cf_stress"
+    trace = os.path.join(ctx.wd, name + ".trace.ndjson")
+    hr = V.harness(["free", "stress", str(ctx.seed), str(runs), str(threads), str(ops), trace], timeout=1800)
+    if hr.returncode not in (0, 3):
+        with open(trace, "a") as f:
+            f.write(json.dumps({"ev": "Crash", "rc": hr.returncode}) + "\n")
+    st, viol, drift = conc_trace_check(ctx, name, trace, [ctx.prop], threads=threads)
+    ctx.events += st["events"]
+    ctx.nontrivial += st["nt"].get(ctx.prop, 0)
+    bad = conc_verdict(ctx, name, trace, None, viol)
+    ctx.traces_ok += st["behaviours"] - len(bad)
+    os.remove(trace)
+
+
+def stage_burst(ctx, n):
+    name = "cf_burst"
+    trace = os.path.join(ctx.wd, name + ".trace.ndjson")
+    hr = V.harness(["free", "burst", str(ctx.seed), str(n), trace], timeout=1800)
+    if hr.returncode not in (0, 3):
+        with open(trace, "a") as f:
+            f.write(json.dumps({"ev": "Crash", "rc": hr.returncode}) + "\n")
+    st, viol, drift = conc_trace_check(ctx, name, trace, [ctx.prop], threads=8)
+    ctx.events += st["events"]
+    ctx.nontrivial += st["nt"].get(ctx.prop, 0)
+    bad = conc_verdict(ctx, name, trace, None, viol)
+    ctx.traces_ok += st["behaviours"] - len(bad)
+    with open(trace) as f:
+        ctx.samples.append({"kind": "un-synced burst", "events": [json.loads(l) for l in f.readlines()[:4]]})
+
+
+def run_conc_property(ctx):
+    """C02 and C09: the properties that are about interleavings."""
+    quick = ctx.tier == "quick"
+    progs = CONC_QUICK if quick else list(CONC_PROGS)
+    stage_conc_mc(ctx, progs)
+    stage_conc_s(ctx, progs, 400 if quick else 0, 300 if quick else 5000)
+    if ctx.prop == "C02":
+        stage_conc_f(ctx, 30 if quick else 600, 4, 25)
+    else:
+        stage_burst(ctx, 5000 if quick else 50000)
+
+
+def stage_conc_light(ctx):
+    """The concurrent clauses of the sequential properties: after every explored multi-threaded
+    phase has quiesced the property must hold (counters, bound, refill, live objects)."""
+    quick = ctx.tier == "quick"
+    stage_conc_s(ctx, CONC_LIGHT if quick else list(CONC_PROGS), 150 if quick else 0, 100 if quick else 3000)
+    if ctx.prop == "C04":
+        stage_burst(ctx, 5000 if quick else 50000)
+
+
 def run_c17(ctx):
     """Configuration space enumerated completely by TLC; every configuration built for real."""
     r = V.model_check(ctx.wd, "builder_mc", "MC_Builder.tla", {"Emit": False}, ["Ok"], workers=4, timeout=600)
@@ -813,6 +1008,9 @@ def run_property(prop, tier, seed):
     if prop == "C15":
         run_c15(ctx, seq_plan(prop, tier))
         return finish(ctx)
+    if prop in ("C02", "C09"):
+        run_conc_property(ctx)
+        return finish(ctx)
     if os.path.isdir(V.REPLAYS):
         for f in os.listdir(V.REPLAYS):
             if f.startswith(prop + "-"):
@@ -827,6 +1025,8 @@ def run_property(prop, tier, seed):
         stage_sketch(ctx)
     if prop in ("C08", "C11"):
         stage_deque(ctx)
+    if prop in ("C03", "C04", "C08", "C10", "C11"):
+        stage_conc_light(ctx)
     stage_findings(ctx)
     return finish(ctx)
 
